@@ -223,7 +223,7 @@ CHECKS = {
     ),
     "C06": dict(
         modules=["AggkitModel.Properties.C06"],
-        scenarios=[dict(name="reorgsync")],
+        scenarios=[dict(name="reorgsync"), dict(name="downloader")],
         generated=["CertFacts", "SyncFacts"],
         leanchecker=True,
         level_text="Proved in Lean 4 by induction over EVERY history (new blocks, reorgs at any depth above the finalized block with shorter or longer new forks, successive reorgs, finality moving at any time, two subscribers progressing at any relative speed, detection passes, restarts, a stop of the node while a syncer is rewinding — at any moment, any length): "
